@@ -60,8 +60,9 @@ pub fn get(prop: &str, tier: &str) -> Option<Check> {
                 Batch { name: "mbap_chunking_server", f: scen::server_tcp::run_chunking, cfg: cfg(Mode::LockStep, false, 0), runs: n(60_000, 2_000_000), real: REAL_SERVER_TCP, stub: STUB_SERVER_TCP },
                 Batch { name: "mbap_chunking_server_faults", f: scen::server_tcp::run_chunking, cfg: cfg(Mode::LockStep, true, 0), runs: n(20_000, 500_000), real: REAL_SERVER_TCP, stub: STUB_SERVER_TCP },
                 Batch { name: "server_tcp_model", f: scen::server_tcp::run_model, cfg: cfg(Mode::LockStep, false, 0), runs: n(20_000, 500_000), real: REAL_SERVER_TCP, stub: STUB_SERVER_TCP },
+                Batch { name: "tls_authz_model", f: scen::tls::run_authz_model, cfg: cfg(Mode::Racy, false, 0), runs: n(2_000, 60_000), real: REAL_TLS, stub: STUB_TLS },
             ],
-            assumptions: vec!["TLS framing shares the MBAP parser; TLS record segmentation is exercised in C09"],
+            assumptions: vec!["TLS: frames are carried in one or two TLS records over a randomly chunked ciphertext stream (tls_authz_model batch)"],
         },
         "C03" => Check {
             prop: "C03",
